@@ -131,6 +131,8 @@ func verifAssume(bool) {}
 //@ ensures #vS: kindis(datum, "string") ==> forallint(a, pattern(mem(result0)[a]), (base(result0)+len(buffer) <= a && a < base(result0)+len(result0)) ==> mem(result0)[a] == asstr(datum)[a - base(result0) - len(buffer)])
 //@ ensures #vB: kindis(datum, "bytes") ==> forallint(a, pattern(mem(result0)[a]), (base(result0)+len(buffer) <= a && a < base(result0)+len(result0)) ==> mem(result0)[a] == old(mem(buffer))[a - base(result0) - len(buffer) + base(asbytes(datum))])
 //@ ensures #place: result0 != nil && (fresh(result0) || base(result0) == base(buffer))
+//@ ensures #head8: len(buffer) >= 8 ==> sle64(result0, 0) == old(sle64(buffer, 0))
+//@ ensures #head16: len(buffer) >= 16 ==> sle64(result0, 8) == old(sle64(buffer, 8))
 //@ ensures #frame: forallint(a, pattern(mem(result0)[a]), (a < base(result0) || a >= base(result0) + len(result0)) ==> mem(result0)[a] == old(mem(buffer))[a])
 
 //@ func (*DataShape).toBytes
@@ -140,6 +142,17 @@ func verifAssume(bool) {}
 //@ ensures #lenByte: result0[0] == mod(len(ds.Name), 256)
 //@ ensures #name: forall(i, 0, len(ds.Name), result0[1+i] == ds.Name[i])
 //@ ensures #type: result0[1+len(ds.Name)] == ds.Type
+//@ ensures #frame: forallint(a, pattern(mem(result0)[a]), a < oldtop() ==> mem(result0)[a] == old(mem(result0))[a])
+
+// The serialized vector starts with the shape count (mod 256); nothing is emitted for a count of 0 (mod 256).
+//@ func DSVToBytes
+//@ props C28
+//@ loop 0 invariant #idx: 0 <= iter0 && iter0 <= len(dss) && len(buffer) >= 1 && buffer[0] == mod(len(dss), 256) && base(buffer) >= oldtop()
+//@ loop 0 invariant #frame: forallint(a, pattern(mem(buffer)[a]), a < oldtop() ==> mem(buffer)[a] == old(mem(buffer))[a])
+//@ ensures #err: result1 == nil
+//@ ensures #empty: mod(len(dss), 256) == 0 ==> result0 == nil
+//@ ensures #count: mod(len(dss), 256) != 0 ==> (len(result0) >= 1 && result0[0] == mod(len(dss), 256))
+//@ ensures #frame: forallint(a, pattern(mem(result0)[a]), a < oldtop() ==> mem(result0)[a] == old(mem(result0))[a])
 
 //@ func dsFromBytes
 //@ props C28 C06
